@@ -338,3 +338,33 @@ Fixpoint si_closers (items : list (si_kind * bool)) : list (si_wait * bool) :=
 
 Definition si_close_returns (items : list (si_kind * bool)) : bool :=
   snd (si_close_walk (si_closers items)).
+
+(* =====================================================================================================
+   Round 8.  (a) The dial closure of a TLS upstream (upstream.go NewUpstream, case "tls": dialTLS) as an init
+   program: TCP connect (acquires the socket), TLS handshake (can fail ON ITS OWN: untrusted / expired / wrong-name
+   certificate - crypto/tls closes the socket only when the handshake is CANCELLED), return the connection to the
+   transport (register).  [closes_on_failure] = the closure calls tlsConn.Close() when HandshakeContext fails.
+   (b) cacheCtl.Close as a program over the tiers the cache owns: every tier is closed whatever an earlier
+   tier's Close returned; [early] = `return c.memory.Close()` - the program ends after the first tier it closes.
+   ===================================================================================================== *)
+Definition si_prog_dial_tls (closes_on_failure : bool) : si_prog :=
+  [si_acq 1 false;                                              (* dialer.DialContext *)
+   {| si_do := SiCheck; si_rel := closes_on_failure |};         (* tlsConn.HandshakeContext(ctx) *)
+   si_reg].                                                     (* return tlsConn: the transport tracks it *)
+
+Inductive si_tier := SiTierMem | SiTierRedis.
+
+Definition si_cache_tiers (mem redis : bool) : list si_tier :=
+  (if mem then [SiTierMem] else []) ++ (if redis then [SiTierRedis] else []).
+
+(* the tiers Close() closes, in order *)
+Definition si_cache_close (early : bool) (tiers : list si_tier) : list si_tier :=
+  if early then firstn 1 tiers else tiers.
+
+Definition si_tier_eqb (a b : si_tier) : bool :=
+  match a, b with SiTierMem, SiTierMem | SiTierRedis, SiTierRedis => true | _, _ => false end.
+
+(* tiers left open by Close *)
+Definition si_cache_left (early : bool) (mem redis : bool) : list si_tier :=
+  filter (fun t => negb (existsb (si_tier_eqb t) (si_cache_close early (si_cache_tiers mem redis))))
+         (si_cache_tiers mem redis).
